@@ -23,6 +23,16 @@ Sub-spaces (all enumerated completely):
   ticks      seconds grid k/1000 x ppq x mpq, scalars (int, float, numpy scalar) and arrays
              (float64, int64, int32, 2-D, strided, empty), both directions
   tables     agreement between the independent constant tables
+  key-pairs  call histories of length 2 of the key-name conversions, each pair in a fresh process
+  key-chains any first query followed by all queries; every ordered pair of queries adjacent inside one history
+  key-sweeps long call histories (valid keys then invalid queries, the reverse, ascending, ...) in a fresh process
+  interval-edits  one Interval edited in place (change_quality, attribute assignment), size read before/after
+  code-forms clef and mode codes in every number form (python/numpy ints and floats) incl. the codes the library
+             itself hands out (Part.clef_map, clef_feature column, Part.key_signature_map, ks_mode field)
+
+The history spaces need the library in the state it has right after import; `init_worker` (called by the
+runner in each worker before the first case) keeps such a copy of the process (mc/c12_fresh.py) and every
+history runs in a fork of it.
 """
 import math
 from fractions import Fraction
@@ -36,7 +46,9 @@ RULE = (
     "every input of each conversion is enumerated over the stated alphabet (one case = one input "
     "tuple, or one block of 250 consecutive grid times for the tick conversion); cases are distinct by "
     "construction; non-trivial = the implementation returned a value that was compared with the "
-    "reference (a correct rejection of an invalid key/mode/interval also counts)"
+    "reference (a correct rejection of an invalid key/mode/interval also counts); history spaces: one case = one "
+    "pair of queries, one all-pairs chain from one start query or one whole sweep (run in its own fresh process), or one edit "
+    "sequence of an Interval x all patterns of reading its size in between"
 )
 ASSUMPTIONS = [
     "trusted base: C4 = 60, base pitch classes C D E F G A B = 0 2 4 5 7 9 11, line of fifths F C G D A E B, "
@@ -53,6 +65,17 @@ ASSUMPTIONS = [
     "undefined class (e.g. P3, M4) or direction must not yield a semitone value; semitones is unsigned (direction ignored)",
     "frequency_to_midi_pitch maps a frequency within 40 cents of an equal-tempered pitch to that pitch",
     "tick arrays of dtype int32 are inputs of midi_ticks_to_seconds (performance note arrays store ticks as i4)",
+    "results of the key conversions are functions of their arguments: what was asked earlier in the same process must not "
+    "change a name or turn a rejection into a name (histories start from the state of the library right after import, "
+    "reproduced by forking a process that has imported partitura and called nothing)",
+    "an Interval is a mutable object with public number/quality/direction: after change_quality(n) (n steps along dd,d,m|M or P,"
+    "A,AA as documented) or after assigning .quality/.number to another defined class, .semitones and transpose_note use the "
+    "class the object has now; a change beyond dd/AA may be rejected (behaviour left open, history ends there); transpose_note "
+    "is only claimed for direction up, number 1..7 and results with alteration in -2..2 (otherwise rejection or the right answer)",
+    "clef and mode codes are numbers: a code equal to an encoded one decodes alike as Python int, numpy integer, Python float "
+    "or numpy float (the library itself hands codes out as int, int64, int32, float64 and float32); a number that is no "
+    "clef code is rejected or - read as an inverse - decodes to a sign whose code is that number (never to another clef); "
+    "bool is not used as a code",
 ]
 CHUNK = 40
 
@@ -1112,10 +1135,656 @@ def ev_table(case, res, cx):
     res.nontrivial = True
 
 
+# --------------------------------------------------------------------------------------------- call histories (keys)
+#
+# The result of a key conversion must not depend on what was asked before in the same process.  A query
+# is [api, fifths, mode, form]:  api "fn" = fifths_mode_to_key_name(fifths, mode), "ks" =
+# KeySignature(fifths, mode).name, "inv" = key_name_to_fifths_mode(<reference name of (fifths, mode)>);
+# form = number type of fifths (and of an integer mode).  A history (list of queries) is executed in a fresh
+# copy of the process as it is right after importing partitura (mc/c12_fresh.py), the observations come
+# back as JSON and are compared here with the reference, query by query.
+
+
+def run_key_ops(ops):
+    """executed in the fresh process: run the queries, return one observation per query"""
+    import partitura.utils.music as M
+    import partitura.score as S
+    from mc.core import jsonable
+
+    out = []
+    for api, f, mode, form in ops:
+        fv = num(f, form)
+        mv = np.int64(mode) if (form != "int" and isinstance(mode, int) and not isinstance(mode, bool)) else mode
+        try:
+            if api == "fn":
+                v = M.fifths_mode_to_key_name(fv, mv)
+            elif api == "ks":
+                v = S.KeySignature(fv, mv).name
+            elif api == "inv":
+                v = M.key_name_to_fifths_mode(ref_key_name(f, mode_kind(mode) == "minor"))
+                v = [v[0], v[1]] if isinstance(v, tuple) and len(v) == 2 else ["not a pair", repr(v)]
+            else:
+                raise ValueError(api)
+            out.append(["val", jsonable(v)])
+        except Hang:
+            raise
+        except Exception as e:  # noqa
+            out.append(["exc", exc_text(e), innermost_partitura_frame(e) or ""])
+    return out
+
+
+def fresh_handler(req):
+    """runs in the fresh process"""
+    if req["what"] == "keyops":
+        return run_key_ops(req["ops"])
+    if req["what"] == "keychain":
+        # the chain is rebuilt here from its description; only the observations that deviate from the reference
+        # travel back (the comparison is repeated in the worker to word the violation)
+        ops = chain_ops(req["scope"], req["start"], req["shape"])
+        obs = run_key_ops(ops)
+        bad = [[i, obs[i]] for i in range(len(ops)) if not key_obs_ok(ops[i], obs[i])]
+        return {"n": len(ops), "bad": bad[:16], "nbad": len(bad)}
+    raise ValueError(req["what"])
+
+
+def init_worker():
+    # called by the runner in every worker process before the first case is evaluated: library state is
+    # still the state after import
+    from mc import c12_fresh
+
+    c12_fresh.start(fresh_handler)
+
+
+def fresh_key_histories(histories):
+    """run each history (list of queries) in its own fresh process -> list of (observations | None, reason)"""
+    from mc import c12_fresh
+
+    outs = c12_fresh.run_batch([{"what": "keyops", "ops": ops} for ops in histories], handler=fresh_handler)
+    res = []
+    for ops, out in zip(histories, outs):
+        if isinstance(out, dict):  # the child was killed (hang or crash inside the library)
+            res.append((None, out.get("died")))
+        elif len(out) != len(ops):
+            raise RuntimeError("fresh process returned %d observations for %d queries" % (len(out), len(ops)))
+        else:
+            res.append((out, None))
+    return res
+
+
+def fresh_key_ops(ops):
+    return fresh_key_histories([ops])[0]
+
+
+API_LABEL = {"fn": "fifths_mode_to_key_name", "ks": "KeySignature.name", "inv": "key_name_to_fifths_mode"}
+
+
+def key_query_valid(q):
+    return mode_kind(q[2]) is not None and -7 <= q[1] <= 7
+
+
+def key_obs_expected(q):
+    """reference of one query: ("val", value) or ("rejected", reason)"""
+    api, f, mode, form = q
+    kind = mode_kind(mode)
+    if key_query_valid(q):
+        return "val", ([f, kind] if api == "inv" else ref_key_name(f, kind == "minor"))
+    return "rejected", ("fifths outside -7..7" if kind is not None else "unknown mode")
+
+
+def key_obs_ok(q, obs):
+    want, v = key_obs_expected(q)
+    if want == "val":
+        return obs[0] == "val" and obs[1] == v
+    return obs[0] != "val"
+
+
+def check_key_obs(res, ops, i, obs, what):
+    """compare observation i of the history `ops` with the reference of query i alone"""
+    if key_obs_ok(ops[i], obs):
+        return
+    api = ops[i][0]
+    hist = ops[:i] if i <= 4 else ops[i - 3:i]
+    d = "%s: query #%d %r after %s%r" % (what, i, ops[i], "" if len(hist) == i else "... ", hist)
+    where = "%s (call history)" % API_LABEL[api]
+    want, v = key_obs_expected(ops[i])
+    if want == "val":
+        if obs[0] != "val":
+            res.fail("key-name-history", kind="exception", where=obs[2] or where, observed=obs[1], detail=d)
+        else:
+            res.fail("key-name-history", expected=v, observed=obs[1], where=where, detail=d)
+    else:
+        res.fail("key-rejected-history", expected="an exception (%s), whatever was asked before" % v, observed=obs[1],
+                 where=where, detail=d)
+
+
+PAIR_EDGE = dict(fifths=[-9, -8, -7, -6, 0, 6, 7, 8, 9], modes=["major", "minor"], apis=["fn"])
+PAIR_CORE = dict(fifths=list(range(-9, 10)), modes=["major", "minor"], apis=["fn", "ks"])
+PAIR_WIDE = dict(fifths=list(range(-12, 13)), modes=["major", None, 1, "minor", -1], apis=["fn", "ks"])
+PAIR_SCOPES = {"edge": PAIR_EDGE, "core": PAIR_CORE, "wide": PAIR_WIDE}
+CHAIN_BLOCKS = 10
+
+
+def pair_alphabet(scope):
+    return [[api, f, mode, "int"] for api in scope["apis"] for mode in scope["modes"] for f in scope["fifths"]]
+
+
+def all_pairs_cycle(n):
+    """cyclic sequence over range(n), length n*n, in which every ordered pair (a, b), a == b included, occurs exactly
+    once as two consecutive elements (concatenation of the Lyndon words of length 1 and 2 in lexicographic order)"""
+    seq = []
+    for a in range(n):
+        seq.append(a)
+        for b in range(a + 1, n):
+            seq.append(a)
+            seq.append(b)
+    return seq
+
+
+for _n in (1, 2, 5, 9):
+    _c = all_pairs_cycle(_n)
+    assert len(_c) == _n * _n
+    assert sorted(zip(_c, _c[1:] + _c[:1])) == [(a, b) for a in range(_n) for b in range(_n)]
+del _n, _c
+
+
+def chain_ops(scope, start, shape):
+    """history over the alphabet of `scope` that starts with its query number `start`:
+    shape "allpairs": contains every ordered pair of queries as consecutive calls (the all-pairs cycle rotated to its
+                      first occurrence of `start`, and closed);
+    shape "first":    the start query, then every query of the alphabet once in alphabet order"""
+    alpha = pair_alphabet(PAIR_SCOPES[scope])
+    if shape == "first":
+        return [alpha[start]] + alpha
+    cyc = all_pairs_cycle(len(alpha))
+    k = cyc.index(start)
+    order = cyc[k:] + cyc[:k] + [start]
+    return [alpha[i] for i in order]
+
+
+def ev_keychain(case, res, cx):
+    from mc import c12_fresh
+
+    scope, start, shape = case["scope"], case["start"], case["shape"]
+    ops = chain_ops(scope, start, shape)
+    out = c12_fresh.run({"what": "keychain", "scope": scope, "start": start, "shape": shape}, handler=fresh_handler)
+    what = "%s chain %s from %r" % (shape, scope, ops[0])
+    cx.n += len(ops)
+    if "died" in out:
+        res.fail("terminates", kind="hang", where="key conversions (call history)", observed=out["died"], detail=what)
+    else:
+        if out["n"] != len(ops):
+            raise RuntimeError("chain length differs between worker and fresh process")
+        for i, obs in out["bad"]:
+            check_key_obs(res, ops, i, obs, what)
+        if out["nbad"] and not res.violations:
+            raise RuntimeError("fresh process and worker disagree about the reference")
+    res.states = len(ops)
+    res.outcome = "keychain:%s:%s:first-%s" % (shape, scope, "valid" if key_query_valid(ops[0]) else "rejected")
+    res.nontrivial = True
+
+
+def ev_keypairs(case, res, cx):
+    """one history of two queries in its own fresh process"""
+    ops = case["ops"]
+    obs, died = fresh_key_ops(ops)
+    cx.n += 2
+    if obs is None:
+        res.fail("terminates", kind="hang", where="key conversions (call history)", observed=died, detail="history=%r" % (ops,))
+    else:
+        for i in range(2):
+            check_key_obs(res, ops, i, obs[i], "pair")
+    res.outcome = "keypairs:%s-%s" % tuple("valid" if key_query_valid(q) else "rejected" for q in ops)
+    res.nontrivial = True
+
+
+SWEEP_ORDERS = ["valid-invalid", "invalid-valid", "valid-invalid-valid", "ascending", "descending", "inside-out", "outside-in"]
+SWEEP_APIS = ["fn", "ks", "mix"]
+SWEEP_FORMS = ["int", "npint", "alt"]
+SWEEP_UNKNOWN = ["dorian", "", 0, 2]
+SWEEP_RANGE = 22
+
+
+def sweep_ops(order, api, form):
+    accepted = MODES_MAJOR + MODES_MINOR
+    allf = list(range(-SWEEP_RANGE, SWEEP_RANGE + 1))
+    valid = [(f, m) for f in range(-7, 8) for m in accepted]
+    invalid = [(f, m) for f in allf if not -7 <= f <= 7 for m in accepted] + [(f, m) for f in range(-7, 8) for m in SWEEP_UNKNOWN]
+    everything = lambda fs: [(f, m) for f in fs for m in accepted + SWEEP_UNKNOWN]  # noqa
+    if order == "valid-invalid":
+        seq = valid + invalid
+    elif order == "invalid-valid":
+        seq = invalid + valid
+    elif order == "valid-invalid-valid":
+        seq = valid + invalid + valid
+    elif order == "ascending":
+        seq = everything(allf)
+    elif order == "descending":
+        seq = everything(allf[::-1])
+    elif order == "inside-out":
+        seq = everything(sorted(allf, key=lambda f: (abs(f), f)))
+    elif order == "outside-in":
+        seq = everything(sorted(allf, key=lambda f: (-abs(f), f)))
+    else:
+        raise ValueError(order)
+    ops = []
+    for i, (f, m) in enumerate(seq):
+        fm = form if form != "alt" else ("int", "npint", "npint32")[i % 3]
+        ok = mode_kind(m) is not None and -7 <= f <= 7
+        if api == "mix":
+            a = ("fn", "ks", "inv")[i % 3] if ok else ("fn", "ks")[i % 2]
+        else:
+            a = api
+        ops.append([a, f, m, fm])
+    return ops
+
+
+def ev_keysweep(case, res, cx):
+    ops = sweep_ops(case["order"], case["api"], case["form"])
+    obs, died = fresh_key_ops(ops)
+    cx.n += len(ops)
+    what = "sweep %s/%s/%s" % (case["order"], case["api"], case["form"])
+    if obs is None:
+        res.fail("terminates", kind="hang", where="key conversions (call history)", observed=died, detail=what)
+    else:
+        for i in range(len(ops)):
+            check_key_obs(res, ops, i, obs[i], what)
+            if len(res.violations) >= 8:
+                break
+    res.states = len(ops)
+    res.outcome = "keysweep:%s" % case["order"]
+    res.nontrivial = True
+
+
+# --------------------------------------------------------------------------------------------- interval edits
+#
+# One Interval object is changed in place (change_quality, or assignment of .quality / .number, optionally
+# followed by validate()) and its size is read before and/or after each change: every reading must be the
+# defined size of the class the interval has at that moment.
+
+Q_PERFECT = ["dd", "d", "P", "A", "AA"]
+Q_IMPERFECT = ["dd", "d", "m", "M", "A", "AA"]
+
+
+def ref_quality_list(number):
+    return Q_PERFECT if (number - 1) % 7 + 1 in (1, 4, 5) else Q_IMPERFECT
+
+
+def ref_change_quality(number, quality, n):
+    """quality reached from `quality` by n semitones (docstring of change_quality); None if there is none"""
+    lst = ref_quality_list(number)
+    i = lst.index(quality) + n
+    return lst[i] if 0 <= i < len(lst) else None
+
+
+for _g in range(1, 8):
+    for _q in ref_quality_list(_g):
+        for _n in range(-5, 6):
+            _q2 = ref_change_quality(_g, _q, _n)
+            if _q2 is not None:
+                assert ref_interval_semitones(_g, _q2) == ref_interval_semitones(_g, _q) + _n, (_g, _q, _n)
+del _g, _q, _n, _q2
+
+TRANSPOSE_PROBES = [[s, 0] for s in REF_STEPS] + [["F", 1], ["B", -1]]
+READ_MODES_UP = ["none", "prop", "transpose"]
+READ_MODES_DOWN = ["none", "prop"]
+
+
+def ref_transpose_note(step, alter, number, semitones):
+    i = REF_STEPS.index(step)
+    new = REF_STEPS[(i + number - 1) % 7]
+    natural = (REF_PC[new] - REF_PC[step]) % 12
+    return new, alter + semitones - natural
+
+
+def _read_patterns(nops, direction):
+    import itertools
+
+    return list(itertools.product(READ_MODES_UP if direction == "up" else READ_MODES_DOWN, repeat=nops))
+
+
+def ev_ivedit(case, res, cx):
+    import partitura.score as S
+    import partitura.utils.music as M
+
+    number, quality, direction, ops = case["number"], case["quality"], case["direction"], case["ops"]
+    patterns = _read_patterns(len(ops), direction)
+    outcome = "ivedit:ok"
+
+    def read(iv, how, n_now, q_now, trace):
+        ref = ref_interval_semitones(n_now, q_now)
+        d = "Interval(%d, %r, %r) then %s: now %s%d" % (number, quality, direction, trace, q_now, n_now)
+        if how in ("prop", "both"):
+            ok, v = cx.call("interval-semitones-after-edit", lambda: iv.semitones)
+            if ok:
+                okv = False
+                try:
+                    okv = is_intlike(v) and abs(int(v)) == abs(ref) and (direction == "down" or v == ref)
+                except Exception:
+                    okv = False
+                if not okv:
+                    res.fail("interval-semitones-after-edit", expected=ref, observed=v, where="Interval.semitones", detail=d)
+        if how in ("transpose", "both") and direction == "up":
+            for step, alter in TRANSPOSE_PROBES:
+                es, ea = ref_transpose_note(step, alter, n_now, ref)
+                dd = "%s; transpose_note(%r, %d, .)" % (d, step, alter)
+                if -2 <= ea <= 2:
+                    ok, v = cx.call("interval-transpose-after-edit", M.transpose_note, step, alter, iv)
+                    if ok:
+                        good = False
+                        try:
+                            good = (len(v) == 2 and v[0] == es and v[1] == ea)
+                        except Exception:
+                            good = False
+                        if not good:
+                            res.fail("interval-transpose-after-edit", expected=[es, ea], observed=v, where="transpose_note", detail=dd)
+                else:  # outside the supported alterations: rejected, or the right answer
+                    rej, v = cx.rejects("interval-transpose-after-edit", M.transpose_note, step, alter, iv)
+                    if not rej:
+                        good = False
+                        try:
+                            good = (len(v) == 2 and v[0] == es and v[1] == ea)
+                        except Exception:
+                            good = False
+                        if not good:
+                            res.fail("interval-transpose-after-edit", expected="an exception or %r" % ([es, ea],), observed=v,
+                                     where="transpose_note", detail=dd)
+
+    for pat in patterns:
+        ok, iv = cx.call("interval-accepted", S.Interval, number, quality, direction)
+        if not ok:
+            break
+        n_now, q_now = number, quality
+        trace = []
+        alive = True
+        for op, rd in zip(ops, pat):
+            if rd != "none":
+                trace.append("read(%s)" % rd)
+                read(iv, rd, n_now, q_now, " ".join(trace))
+            if op[0] == "cq":
+                trace.append("change_quality(%d)" % op[1])
+                q_new = ref_change_quality(n_now, q_now, op[1])
+                if q_new is None:
+                    # no such quality: the statement leaves the behaviour open (the code raises ValueError);
+                    # the history ends here
+                    rej, v = cx.rejects("interval-change-quality", iv.change_quality, op[1])
+                    outcome = "ivedit:change-out-of-range:%s" % ("rejected" if rej else "accepted")
+                    alive = False
+                    break
+                ok, v = cx.call("interval-change-quality", iv.change_quality, op[1])
+                if not ok:
+                    alive = False
+                    break
+                q_now = q_new
+                if iv.quality != q_now or iv.number != n_now:
+                    res.fail("interval-change-quality", expected="%s%d" % (q_now, n_now), observed="%s%s" % (iv.quality, iv.number),
+                             where="Interval.change_quality", detail="Interval(%d, %r, %r) then %s" % (number, quality, direction, " ".join(trace)))
+                    alive = False
+                    break
+            elif op[0] == "setq":
+                trace.append(".quality=%r" % op[1])
+                iv.quality = op[1]
+                q_now = op[1]
+            elif op[0] == "setn":
+                trace.append(".number=%d" % op[1])
+                iv.number = op[1]
+                n_now = op[1]
+            else:
+                raise ValueError(op)
+            if len(op) > 2 and op[2]:
+                trace.append("validate()")
+                ok, _ = cx.call("interval-accepted", iv.validate)
+                if not ok:
+                    alive = False
+                    break
+        if alive:
+            trace.append("read")
+            read(iv, "both", n_now, q_now, " ".join(trace))
+        if len(res.violations) >= 8:
+            break
+    res.states = len(patterns)
+    res.traces = len(patterns)
+    res.outcome = outcome if outcome != "ivedit:ok" else "ivedit:%s" % ops[0][0]
+    res.nontrivial = True
+
+
+# --------------------------------------------------------------------------------------------- numeric forms of codes
+#
+# Clef and mode codes are numbers; the library hands them out as Python ints (clef_sign_to_int,
+# key_mode_to_int), numpy integers (Part.clef_map: int64, note array field ks_mode: int32), float64
+# (Part.key_signature_map, interpolated) and float32 (note feature clef_feature.clef_sign).  A code must decode
+# to what was encoded in every one of these forms.
+
+CODE_FORMS = {
+    "int": int, "npint8": np.int8, "npint16": np.int16, "npint32": np.int32, "npint64": np.int64, "npuint8": np.uint8,
+    "float": float, "npfloat16": np.float16, "npfloat32": np.float32, "npfloat64": np.float64,
+}
+CODE_FORM_NAMES = ["int", "npint8", "npint16", "npint32", "npint64", "npuint8", "float", "npfloat16", "npfloat32", "npfloat64"]
+CLEF_NONCODES = list(range(-7, 0)) + list(range(7, 14))
+CLEF_NONCODES_FRACTIONAL = [-0.5, 0.5, 2.5, 5.5, 6.5]
+MODE_NONCODES = [0, 2, -2, 3]
+MODE_NONCODES_FRACTIONAL = [0.5, -0.5, 1.5, -1.5]
+
+
+def cast(x, form):
+    return CODE_FORMS[form](x)
+
+
+def ev_codeform(case, res, cx):
+    import partitura.utils.music as M
+    import partitura.score as S
+
+    what, form = case["what"], case.get("form")
+    if what == "clef-sign":
+        sign = case["sign"]
+        d = "sign=%r code as %s" % (sign, form)
+        ok, code = cx.call("clef-encode", M.clef_sign_to_int, sign)
+        if ok:
+            if not is_intlike(code):
+                res.fail("clef-encode", expected="an integer code", observed=repr(code), where="clef_sign_to_int", detail=d)
+            else:
+                ok, back = cx.call("clef-decodes", M.clef_int_to_sign, cast(code, form))
+                if ok:
+                    cx.eq("clef-decodes", back, sign, "clef_int_to_sign", d)
+    elif what == "clef-code":
+        code = case["code"]
+        d = "code=%r as %s" % (code, form)
+        ok, sign = cx.call("clef-decode", M.clef_int_to_sign, cast(code, form))
+        if ok:
+            if sign not in CLEF_SIGNS:
+                res.fail("clef-decode", expected="one of %r" % (CLEF_SIGNS,), observed=sign, where="clef_int_to_sign", detail=d)
+            else:
+                ok, back = cx.call("clef-encodes", M.clef_sign_to_int, sign)
+                if ok:
+                    cx.eq("clef-encodes", back, code, "clef_sign_to_int(clef_int_to_sign(.))", d)
+    elif what == "clef-noncode":
+        value = case["value"]
+        d = "value=%r as %s (not the code of any clef)" % (value, form)
+        rej, sign = cx.rejects("clef-decode-inverse", M.clef_int_to_sign, cast(value, form))
+        if not rej:
+            # whatever is decoded must have been encoded as this number
+            good = False
+            try:
+                good = sign in CLEF_SIGNS and M.clef_sign_to_int(sign) == value
+            except Exception:
+                good = False
+            if not good:
+                res.fail("clef-decode-inverse", expected="an exception, or a sign whose code is %r" % (value,), observed=sign,
+                         where="clef_int_to_sign", detail=d)
+    elif what == "mode-code":
+        mode = case["mode"]
+        kind = mode_kind(mode)
+        code = 1 if kind == "major" else -1
+        d = "mode=%r code as %s" % (mode, form)
+        ok, c = cx.call("mode-to-int", M.key_mode_to_int, mode)
+        if ok:
+            if not (is_intlike(c) and c == code):
+                res.fail("mode-to-int", expected=code, observed=c, where="key_mode_to_int", detail=d)
+            else:
+                cv = cast(c, form)
+                ok, back = cx.call("mode-decodes", M.key_int_to_mode, cv)
+                if ok:
+                    cx.eq("mode-decodes", back, kind, "key_int_to_mode", d)
+                ok, again = cx.call("mode-to-int", M.key_mode_to_int, cv)
+                if ok:
+                    cx.eq("mode-to-int", again, code, "key_mode_to_int(mode code)", d)
+    elif what == "mode-noncode":
+        value = case["value"]
+        d = "value=%r as %s (not a mode code)" % (value, form)
+        for fn in (M.key_mode_to_int, M.key_int_to_mode):
+            rej, v = cx.rejects("mode-rejected", fn, cast(value, form))
+            if not rej:
+                res.fail("mode-rejected", expected="an exception (unknown mode)", observed=v, where=fn.__name__, detail=d)
+    elif what == "key-mode-code":
+        f, code = case["fifths"], case["code"]
+        exp = ref_key_name(f, code == -1)
+        d = "fifths=%r mode code %r as %s" % (f, code, form)
+        cv = cast(code, form)
+        for label, fn in (("fifths_mode_to_key_name", lambda: M.fifths_mode_to_key_name(f, cv)),
+                          ("KeySignature.name", lambda: S.KeySignature(f, cv).name)):
+            ok, v = cx.call("key-name", fn)
+            if ok:
+                cx.eq("key-name", v, exp, "%s(mode code)" % label, d)
+    elif what == "part-clefs":
+        ev_part_clefs(case, res, cx)
+    elif what == "part-keys":
+        ev_part_keys(case, res, cx)
+    else:
+        raise ValueError(what)
+    res.outcome = "codeform:%s:%s" % (what, "int" if (form or "").find("int") >= 0 else ("float" if form else "library"))
+    res.nontrivial = True
+
+
+def _small_part(nstaves, nnotes):
+    import partitura.score as S
+
+    part = S.Part("P0", quarter_duration=1)
+    part.add(S.TimeSignature(4, 4), 0)
+    k = 0
+    for st in range(1, nstaves + 1):
+        for i in range(nnotes):
+            part.add(S.Note(id="n%d" % k, step="C", octave=4, staff=st, voice=st), i, i + 1)
+            k += 1
+    return part
+
+
+def ev_part_clefs(case, res, cx):
+    """codes as the library hands them out: Part.clef_map and the clef feature of the note array"""
+    import partitura.score as S
+    import partitura.utils.music as M
+    from partitura.musicanalysis import compute_note_array
+
+    signs, staff2 = case["signs"], case.get("staff2")
+    nstaves = 2 if staff2 else 1
+    per_staff = {1: list(signs)}
+    if staff2 == "reversed":
+        per_staff[2] = list(signs)[::-1]
+    d = "clefs %r at t=0,1,..%s" % (signs, {None: "", "reversed": "; staff 2 the same reversed", "bare": "; staff 2 without clef"}[staff2])
+    if case.get("noclef"):
+        d = "no clef in the part (%d notes)" % len(signs)
+    part = _small_part(nstaves, len(signs))
+    if not case.get("noclef"):
+        for st, ss in sorted(per_staff.items()):
+            for i, s in enumerate(ss):
+                if i == 0 or s != ss[i - 1]:
+                    part.add(S.Clef(staff=st, sign=s, line=2, octave_change=0), i)
+    S.add_measures(part)
+    if staff2 == "bare":
+        per_staff[2] = ["none"] * len(signs)  # Part.clef_map: a staff without clef has the "none" clef
+    ok, cmap = cx.call("clef-decodes-library-code", lambda: part.clef_map)
+    if ok:
+        for t in range(len(signs)):
+            ok, rows = cx.call("clef-decodes-library-code", cmap, t)
+            if not ok:
+                break
+            try:
+                rows = [list(r) for r in rows]
+            except Exception:
+                rows = None
+            if not rows or len(rows) != nstaves:
+                res.fail("clef-decodes-library-code", expected="one row per staff", observed=repr(rows)[:200], where="Part.clef_map", detail=d)
+                break
+            for st, row in enumerate(rows, start=1):
+                exp = per_staff[st][t]
+                ok2, back = cx.call("clef-decodes-library-code", M.clef_int_to_sign, row[1])
+                if ok2:
+                    cx.eq("clef-decodes-library-code", back, exp, "clef_int_to_sign(Part.clef_map(t)[staff][1])",
+                          "%s t=%d staff=%d code=%r (%s)" % (d, t, st, row[1], type(row[1]).__name__))
+    if staff2 == "bare":
+        return  # the clef feature is not defined for a staff without clef next to one with clefs
+    ok, na = cx.call("clef-decodes-library-code", compute_note_array, part, feature_functions=["clef_feature"])
+    if ok:
+        try:
+            col = na["clef_feature.clef_sign"]
+            ons = na["onset_div"]
+            ids = na["id"]
+        except Exception as e:  # noqa
+            res.fail("clef-decodes-library-code", expected="a column clef_feature.clef_sign", observed=exc_text(e), where="clef_feature", detail=d)
+            col = None
+        if col is not None:
+            nper = len(signs)
+            if len(col) != nper * nstaves:
+                res.fail("clef-decodes-library-code", expected="%d notes" % (nper * nstaves), observed=len(col), where="compute_note_array", detail=d)
+            for code, t, nid in zip(col, ons, ids):
+                st = int(str(nid)[1:]) // nper + 1
+                exp = per_staff[st][int(t)]
+                ok2, back = cx.call("clef-decodes-library-code", M.clef_int_to_sign, code)
+                if ok2:
+                    cx.eq("clef-decodes-library-code", back, exp, "clef_int_to_sign(note_array['clef_feature.clef_sign'])",
+                          "%s note=%s staff=%d t=%d code=%r (%s)" % (d, nid, st, int(t), code, type(code).__name__))
+
+
+def ev_part_keys(case, res, cx):
+    """mode codes as the library hands them out: Part.key_signature_map (float64) and ks_mode (int32)"""
+    import partitura.score as S
+    import partitura.utils.music as M
+
+    keys = case["keys"]  # [[fifths, mode], ...] at t = 0, 1, ..
+    d = "key signatures %r at t=0,1,.." % (keys,)
+    part = _small_part(1, len(keys))
+    for i, (f, m) in enumerate(keys):
+        part.add(S.KeySignature(f, m), i)
+    S.add_measures(part)
+
+    def check(f_obs, m_obs, f, m, src):
+        kind = mode_kind(m)
+        dd = "%s %s: fifths=%r (%s) mode code=%r (%s)" % (d, src, f_obs, type(f_obs).__name__, m_obs, type(m_obs).__name__)
+        ok, back = cx.call("mode-decodes-library-code", M.key_int_to_mode, m_obs)
+        if ok:
+            cx.eq("mode-decodes-library-code", back, kind, "key_int_to_mode(%s)" % src, dd)
+        if f_obs == f:
+            ok, nm = cx.call("mode-decodes-library-code", M.fifths_mode_to_key_name, int(f_obs), m_obs)
+            if ok:
+                cx.eq("mode-decodes-library-code", nm, ref_key_name(f, kind == "minor"), "fifths_mode_to_key_name(int(fifths), %s mode code)" % src, dd)
+
+    ok, kmap = cx.call("mode-decodes-library-code", lambda: part.key_signature_map)
+    if ok:
+        for t, (f, m) in enumerate(keys):
+            ok, row = cx.call("mode-decodes-library-code", kmap, t)
+            if not ok:
+                break
+            try:
+                f_obs, m_obs = row[0], row[1]
+            except Exception:
+                res.fail("mode-decodes-library-code", expected="(fifths, mode code)", observed=repr(row)[:200], where="Part.key_signature_map", detail=d)
+                break
+            check(f_obs, m_obs, f, m, "Part.key_signature_map(t)")
+    ok, na = cx.call("mode-decodes-library-code", lambda: M.note_array_from_part(part, include_key_signature=True))
+    if ok:
+        try:
+            rows = list(zip(na["onset_div"], na["ks_fifths"], na["ks_mode"]))
+        except Exception as e:  # noqa
+            res.fail("mode-decodes-library-code", expected="fields ks_fifths, ks_mode", observed=exc_text(e), where="note_array", detail=d)
+            rows = []
+        for t, f_obs, m_obs in rows:
+            f, m = keys[int(t)]
+            check(f_obs, m_obs, f, m, "note_array['ks_mode']")
+
+
 EVAL = {
     "spelling": ev_spelling, "notename": ev_notename, "midi": ev_midi, "midi-array": ev_midi_array, "keys": ev_keys,
     "keyname": ev_keyname, "mode": ev_mode, "clef": ev_clef, "symdur": ev_symdur, "tempo": ev_tempo,
     "tuplet": ev_tuplet, "interval": ev_interval, "ticks": ev_ticks, "table": ev_table,
+    "keypairs": ev_keypairs, "keychain": ev_keychain, "keysweep": ev_keysweep, "ivedit": ev_ivedit, "codeform": ev_codeform,
 }
 
 
@@ -1226,6 +1895,114 @@ def _interval_cases():
             yield dict(k="interval", number=n, quality=q, direction="up", default_direction=True)
 
 
+def _keypair_cases(tier):
+    def gen():
+        if tier == "quick":
+            alpha = pair_alphabet(PAIR_EDGE)
+            for q1 in alpha:
+                for q2 in alpha:
+                    yield dict(k="keypairs", ops=[q1, q2])
+        else:
+            # both queries through the same api
+            for q1 in pair_alphabet(PAIR_CORE):
+                for q2 in pair_alphabet(PAIR_CORE):
+                    if q1[0] == q2[0]:
+                        yield dict(k="keypairs", ops=[q1, q2])
+    return gen
+
+
+def _keychain_cases(tier, seed):
+    def gen():
+        for scope in ("core", "wide"):
+            alpha = pair_alphabet(PAIR_SCOPES[scope])
+            fs = PAIR_SCOPES[scope]["fifths"]
+            for i, q in enumerate(alpha):
+                # after any first query every query of the alphabet
+                c = dict(k="keychain", scope=scope, start=i, shape="first")
+                if scope == "core" or tier != "quick" or block_of(c, CHAIN_BLOCKS) == seed % CHAIN_BLOCKS:
+                    yield c
+            for i, q in enumerate(alpha):
+                # all ordered pairs adjacent, started from the extreme and the middle queries
+                if q[1] in (fs[0], 0, fs[-1]):
+                    c = dict(k="keychain", scope=scope, start=i, shape="allpairs")
+                    if scope == "core" or tier != "quick" or block_of(c, CHAIN_BLOCKS) == seed % CHAIN_BLOCKS:
+                        yield c
+    return gen
+
+
+def _keysweep_cases():
+    for order in SWEEP_ORDERS:
+        for api in SWEEP_APIS:
+            for form in SWEEP_FORMS:
+                yield dict(k="keysweep", order=order, api=api, form=form)
+
+
+def _ivedit_cases(tier):
+    def gen():
+        single = list(range(-5, 6))
+        pair_r = range(-3, 4) if tier == "quick" else range(-5, 6)
+        for number in range(1, 8):
+            quals = ref_quality_list(number)
+            for quality in quals:
+                for direction in ("up", "down"):
+                    base = dict(k="ivedit", number=number, quality=quality, direction=direction)
+                    for n in single:
+                        yield dict(base, ops=[["cq", n]])
+                    for n1 in pair_r:
+                        for n2 in pair_r:
+                            yield dict(base, ops=[["cq", n1], ["cq", n2]])
+                    if tier != "quick":
+                        for n1 in range(-2, 3):
+                            for n2 in range(-2, 3):
+                                for n3 in range(-2, 3):
+                                    yield dict(base, ops=[["cq", n1], ["cq", n2], ["cq", n3]])
+                    for val in (False, True):
+                        for q2 in quals:
+                            yield dict(base, ops=[["setq", q2, val]])
+                            for n in (-1, 1):
+                                yield dict(base, ops=[["setq", q2, val], ["cq", n]])
+                        for n2 in range(1, 8):
+                            if n2 != number and quality in ref_quality_list(n2):
+                                yield dict(base, ops=[["setn", n2, val]])
+    return gen
+
+
+def _codeform_cases():
+    for form in CODE_FORM_NAMES:
+        for s in CLEF_SIGNS:
+            yield dict(k="codeform", what="clef-sign", sign=s, form=form)
+        for c in range(len(CLEF_SIGNS)):
+            yield dict(k="codeform", what="clef-code", code=c, form=form)
+        for v in CLEF_NONCODES + (CLEF_NONCODES_FRACTIONAL if "float" in form else []):
+            if form == "npuint8" and v < 0:
+                continue
+            yield dict(k="codeform", what="clef-noncode", value=v, form=form)
+        if form != "npuint8":
+            for mode in MODES_MAJOR + MODES_MINOR:
+                yield dict(k="codeform", what="mode-code", mode=mode, form=form)
+            for f in range(-7, 8):
+                for code in (1, -1):
+                    yield dict(k="codeform", what="key-mode-code", fifths=f, code=code, form=form)
+        for v in MODE_NONCODES + (MODE_NONCODES_FRACTIONAL if "float" in form else []):
+            if form == "npuint8" and v < 0:
+                continue
+            yield dict(k="codeform", what="mode-noncode", value=v, form=form)
+    # codes handed out by the library itself
+    for s1 in CLEF_SIGNS:
+        for s2 in CLEF_SIGNS:
+            yield dict(k="codeform", what="part-clefs", signs=[s1, s2], staff2=None)
+    for i, s1 in enumerate(CLEF_SIGNS):
+        rot = CLEF_SIGNS[i:] + CLEF_SIGNS[:i]
+        yield dict(k="codeform", what="part-clefs", signs=rot, staff2=None)
+        yield dict(k="codeform", what="part-clefs", signs=rot, staff2="reversed")
+        yield dict(k="codeform", what="part-clefs", signs=[s1, CLEF_SIGNS[(i + 3) % 7]], staff2="bare")
+    yield dict(k="codeform", what="part-clefs", signs=["none", "none"], staff2=None, noclef=True)
+    for f in range(-7, 8):
+        for m1 in MODES_MAJOR + MODES_MINOR:
+            for m2 in ("major", "minor"):
+                yield dict(k="codeform", what="part-keys", keys=[[f, m1], [-f, m2]])
+
+
 PPQ_CORE = [1, 96, 480, 960]
 MPQ_CORE = [250000, 500000, 600000]
 PPQ_MORE = [24, 120, 384, 1024, 10080]
@@ -1299,6 +2076,38 @@ def spaces(tier, seed):
         Space("intervals", _interval_cases, True, "number 1..14 x quality {dd,d,m,M,P,A,AA,X,''} x direction {up,down,sideways,default}"),
         Space("tables", [dict(k="table", table=t) for t in TABLE_CHECKS], True, "15 agreement checks between the constant tables"),
     ]
+    sp.append(Space("key-pairs", _keypair_cases(tier), True,
+                    "call histories of length 2, every ordered pair (one case) in its own fresh process (state of the library as after import): "
+                    + ("(fifths_mode_to_key_name x {major,minor} x fifths {-9,-8,-7,-6,0,6,7,8,9})^2 = 324 pairs" if tier == "quick" else
+                       "api {fifths_mode_to_key_name, KeySignature.name} (same for both queries) x ({major,minor} x fifths -9..9)^2 = 2888 pairs")
+                    + "; both results must equal the reference of the single query (name, or rejection)"))
+    sp.append(Space("key-chains", _keychain_cases(tier, seed), True,
+                    "longer histories, one fresh process each, over the alphabets A = api {fifths_mode_to_key_name, KeySignature.name} x "
+                    "{major,minor} x fifths -9..9 (76 queries) and W = 2 apis x {major,None,1,minor,-1} x fifths -12..12 (250 queries): "
+                    "(first) for every start query s: s, then every query of the alphabet; (allpairs) the cyclic all-pairs sequence (n^2+1 "
+                    "calls, every ordered pair of queries adjacent exactly once) rotated to start at s, for the 12 (A) / 30 (W) start queries "
+                    "with the lowest, zero and highest fifths"
+                    + ("; A complete, of W the histories in hash block %d of %d" % (seed % CHAIN_BLOCKS, CHAIN_BLOCKS) if tier == "quick" else "")
+                    + "; every single result must equal the reference"))
+    sp.append(Space("key-sweeps", _keysweep_cases, True,
+                    "long call histories in one fresh process: fifths -22..22 x 6 accepted mode spellings + 4 unknown modes, in 7 orders "
+                    "(all valid keys then all invalid queries, invalid then valid, valid-invalid-valid, ascending, descending, inside-out, "
+                    "outside-in) x api {fifths_mode_to_key_name, KeySignature.name, mixed incl. key_name_to_fifths_mode} x number form "
+                    "{int, numpy int64, alternating int/int64/int32}: every single result equals the reference"))
+    sp.append(Space("interval-edits", _ivedit_cases(tier), True,
+                    "one Interval object edited in place: 39 classes (number 1..7 x its qualities) x direction {up,down} x edits {change_quality(n) "
+                    "n=-5..5; two changes (n1,n2) in %s; .quality=q2 for every quality of the number, alone and followed by change_quality(+-1); "
+                    ".number=n2 for every number that has the quality; assignments with and without validate()} x every pattern of reading the size "
+                    "before each edit {not read, .semitones, transpose_note over 9 (step, alter) probes}; after the edits .semitones and transpose_note "
+                    "must give the size of the class the interval has now"
+                    % ("(-3..3)^2" if tier == "quick" else "(-5..5)^2; three changes in (-2..2)^3")))
+    sp.append(Space("code-forms", _codeform_cases, True,
+                    "clef codes 0..6 / 7 signs and mode codes +-1 / 6 mode spellings x number form {int, numpy int8/16/32/64, uint8, float, numpy "
+                    "float16/32/64}: decode(encode) and encode(decode); mode codes in these forms as mode argument of fifths_mode_to_key_name and "
+                    "KeySignature.name for fifths -7..7; numbers that are no code (clef -7..-1, 7..13, fractional; mode 0,2,-2,3, fractional); codes "
+                    "handed out by the library: Part.clef_map and note feature clef_feature.clef_sign (float32) for all 49 clef pairs on one staff, the 7 "
+                    "rotations of all signs on one and two staves, a staff without clef, a part without clef; Part.key_signature_map (float64) and "
+                    "note array field ks_mode (int32) for fifths -7..7 x 6 mode spellings x following {major,minor}"))
     sp.append(Space("ticks-negative", _tick_cases_negative(PPQ_CORE + [1000000 // 1000], MPQ_CORE + [1000000], 1000 if tier == "quick" else 5000), True,
                     "negative times t=k/1000 s, k=-%d..-1 x ppq {1,96,480,960,1000} x mpq {250000,500000,600000,1000000}: the same clauses "
                     "(rounding is to nearest for negative values too; scalar and array branches agree)" % (1000 if tier == "quick" else 5000)))
